@@ -1,9 +1,15 @@
 //! fv — deterministic simulation checks for the Flounder UCI engine.
 //!   fv check <ID> [--tier quick|thorough] [--replay FILE]
 //!   fv selftest [rules|determinism]
+mod c03;
+mod c04;
 mod c05;
 mod c06;
 mod c07;
+mod c09;
+mod c11;
+mod c12;
+mod c13;
 mod c15;
 mod c16;
 mod common;
@@ -15,6 +21,7 @@ mod rules;
 mod selftest;
 mod simworld;
 mod sworld;
+mod usession;
 
 use common::{Ctx, Tier};
 use std::path::PathBuf;
@@ -88,10 +95,22 @@ fn real_main() {
             };
             println!("VERIF_SEED={} property={} tier={} workers={} repo={}", seed, prop, tier.name(), workers, engine::REPO_PATH);
             let code = match (prop.as_str(), replay) {
+                ("C03", None) => c03::run(&ctx),
+                ("C03", Some(p)) => c03::replay(&p),
+                ("C04", None) => c04::run(&ctx),
+                ("C04", Some(p)) => c04::replay(&p),
                 ("C05", None) => c05::run(&ctx),
                 ("C05", Some(p)) => c05::replay(&p),
                 ("C07", None) => c07::run(&ctx),
                 ("C07", Some(p)) => c07::replay(&p),
+                ("C09", None) => c09::run(&ctx),
+                ("C09", Some(p)) => c09::replay(&p),
+                ("C11", None) => c11::run(&ctx),
+                ("C11", Some(p)) => c11::replay(&p),
+                ("C12", None) => c12::run(&ctx),
+                ("C12", Some(p)) => c12::replay(&p),
+                ("C13", None) => c13::run(&ctx),
+                ("C13", Some(p)) => c13::replay(&p),
                 ("C15", None) => c15::run(&ctx),
                 ("C15", Some(p)) => c15::replay(&p),
                 ("C06", None) => c06::run(&ctx),
